@@ -202,8 +202,11 @@ func (p *Provider) ruleSetsChanged(evt fsnotify.Event) error {
 		Msg("Rule update event received")
 
 	if fInfo, err := os.Stat(p.src); evt.Name != p.src && (err != nil || !fInfo.IsDir()) {
-		// a single file is configured. Events for other files in its directory are of no interest
-		return nil
+		// a single file is configured and something else in its directory has changed. The file may
+		// be a symbolic link, with the actual update happening somewhere on the way to its target (that
+		// is how e.g. the volumes for kubernetes config maps and secrets get updated). So, the file
+		// is checked for changes. If there are none, nothing happens
+		return p.ruleSetCreatedOrUpdated(p.src)
 	}
 
 	var err error
